@@ -113,6 +113,7 @@ func (s *State) assume(t *Term) {
 	if t.IsTrue() {
 		return
 	}
+	t = expandSmallRanges(t)
 	if len(s.facts) > 0 {
 		// simplifying with facts that are themselves consequences of the path condition is sound
 		t = s.simplify(t, 0)
@@ -339,6 +340,7 @@ func (r *Run) oblige(st *State, clause string, props []string, sub string, goal 
 	if r.caseTag != "" {
 		sub = strings.TrimSpace(sub + " " + r.caseTag)
 	}
+	goal = expandSmallRanges(goal)
 	o := &Oblig{Func: r.fname, Clause: clause, Props: props, Sub: sub, Goal: goal}
 	if goal.IsTrue() || st.infeasible() {
 		o.Trivial = true
@@ -1515,7 +1517,31 @@ func (r *Run) execInstr(st *State, fr *Frame, in ssa.Instruction, b *ssa.BasicBl
 		}
 	case *ssa.DebugRef:
 	case *ssa.Call:
-		return r.call(st, fr, x, b, idx, prev)
+		cont := r.call(st, fr, x, b, idx, prev)
+		if cont && fr.depth == 0 && fr.spec != nil {
+			// labelled snapshots taken right after a (non-inlined) call: "at L after call NAME"
+			for _, c := range fr.spec.Clauses {
+				if c.Kind != "at" {
+					continue
+				}
+				f := strings.Fields(c.Text)
+				if len(f) == 4 && f[1] == "after" && f[2] == "call" {
+					name := ""
+					if callee := x.Common().StaticCallee(); callee != nil {
+						name = callee.Name()
+					} else if x.Common().IsInvoke() {
+						name = x.Common().Method.Name()
+					}
+					if name == f[3] {
+						if fr.snaps == nil {
+							fr.snaps = map[string]*State{}
+						}
+						fr.snaps[f[0]] = st.clone() // the last such call wins
+					}
+				}
+			}
+		}
+		return cont
 	case *ssa.Go, *ssa.Send, *ssa.Select, *ssa.MakeChan:
 		r.unsup("concurrency instruction %T", in)
 	case *ssa.SliceToArrayPointer, *ssa.MultiConvert:
